@@ -408,6 +408,21 @@ def check(world, tier):
                 for a_ in x.args:
                     if isinstance(a_, tuple) and a_[0] == "r" and a_[1][0] == "K" and a_[1][1][0] == "str":
                         cmp_names.add(a_[1][1][1])
+        for x in e3.events:
+            if base_name(x).startswith("std::cmp::impls::<impl std::cmp::PartialEq<&B> for &A>::"):
+                for sn in (x.argsnap or []):
+                    a_ = sn.get(()) if isinstance(sn, dict) else None
+                    if isinstance(a_, tuple) and a_[0] == "r" and a_[1][0] == "K" and a_[1][1][0] == "str":
+                        cmp_names.add(a_[1][1][1])
+        for edge, conds in e3.edge_conds.items():
+            for cnd in conds:
+                b_ = cnd[1] if cnd[0] == "bool" else None
+                while isinstance(b_, tuple) and b_ and b_[0] == "not":
+                    b_ = b_[1]
+                if isinstance(b_, tuple) and b_ and b_[0] == "opaque" and isinstance(b_[1], tuple) and b_[1][0] == "streq":
+                    for nm_ in (b_[1][3], b_[1][4]):
+                        if nm_ is not None:
+                            cmp_names.add(nm_)
         d.ob(cmp_names == set(RFC_OPTIONS.values()), "from_str-table", "OptionType::from_str compares with %s" % sorted(cmp_names), sample={"recognised names": sorted(cmp_names)})
     else:
         d.fail("anchor-lost OptionType conversions", "OptionType::as_str / FromStr not found")
